@@ -47,12 +47,9 @@ def universe(tier):
         "Sa": lambda: String("a", "x"),
         "Sa2": lambda: String("a", "y"),
     }
+    u["P"] = lambda: Preamble("p")
     if tier == "thorough":
-        u["P"] = lambda: Preamble("p")
-        u["C"] = lambda: ImplicitComment("c")
         u["F"] = lambda: ParsingFailedBlock(error=Exception("e"), raw="@x")
-    else:
-        u["P"] = lambda: Preamble("p")
     return u
 
 
